@@ -41,6 +41,7 @@ type Program struct {
 
 	own      map[*types.Package]bool
 	declOf   map[*types.Func]*ast.FuncDecl
+	expanded map[*ssa.Function]bool
 	cg       *callgraph.Graph
 	allFuncs map[*ssa.Function]bool
 	LoadSecs float64
@@ -100,6 +101,7 @@ func Load(repo string) (*Program, error) {
 	if nOwn < 10 {
 		return nil, fmt.Errorf("only %d own packages loaded from %s (expected >= 10)", nOwn, repo)
 	}
+	installInlineFilter(roots)
 	prog, _ := ssautil.AllPackages(roots, ssa.InstantiateGenerics)
 	prog.Build()
 	p.SSA = prog
@@ -392,6 +394,9 @@ func (p *Program) OwnFuncs() []*ssa.Function {
 		if pk := FnPkg(fn); pk != nil && strings.Contains(pk.Path(), "/testtools/") {
 			continue
 		}
+		if p.expandedAway(fn) {
+			continue
+		}
 		out = append(out, fn)
 	}
 	// order by (file, offset): token.Pos values depend on the order in which the loader happened to
@@ -456,4 +461,27 @@ func FnName(fn *ssa.Function) string {
 	s = strings.ReplaceAll(s, "github.com/free5gc/go-gtp5gnl", "gtp5gnl")
 	s = strings.ReplaceAll(s, "github.com/khirono/go-nl", "nl")
 	return s
+}
+
+// expandedAway: fn (or the function it is nested in) is a function that does not exist in the reference tree, every
+// call of which the SSA builder expanded into its callers (inline.go): its code is judged where it runs, as part of
+// the known functions, and the left-over declaration is nobody's code.
+func (p *Program) expandedAway(fn *ssa.Function) bool {
+	top := fn
+	for top.Parent() != nil {
+		top = top.Parent()
+	}
+	obj, ok := top.Object().(*types.Func)
+	if !ok || !NewFunctions[obj.FullName()] {
+		return false
+	}
+	if p.expanded == nil {
+		p.expanded = map[*ssa.Function]bool{}
+	}
+	if v, ok := p.expanded[top]; ok {
+		return v
+	}
+	away := len(p.Callers(top)) == 0
+	p.expanded[top] = away
+	return away
 }
